@@ -346,20 +346,35 @@ def _parts(c: R, restrict) -> List[R]:
 
 
 class _ByLetter(_Json, DisjointUnionStrategy[R, Word]):
+    """only: "" (every language), "e" (only languages containing the empty word) or "n" (only
+    languages without it) -- a strategy may apply to whatever it wants; restricted variants
+    give classes of one universe different sets of alternative rules."""
+
     RESTRICT = staticmethod(restrict_first)
     WHERE = "first"
 
-    def __init__(self, **kw):
+    def __init__(self, only: str = "", **kw):
+        self.only = only
         kw.pop("possibly_empty", None)
         super().__init__(possibly_empty=False, **kw)
 
     def to_jsonable(self) -> dict:
         d = super().to_jsonable()
         d.pop("possibly_empty", None)
+        d["only"] = self.only
         return d
+
+    @classmethod
+    def from_dict(cls, d: dict):
+        return cls(only=d.get("only", ""))
+
+    def __repr__(self) -> str:
+        return f"{type(self).__name__}({self.only!r})" if self.only else f"{type(self).__name__}()"
 
     def decomposition_function(self, c: R) -> Optional[Tuple[R, ...]]:
         if c.is_empty():
+            return None
+        if (self.only == "e" and not has_eps(c.dfa)) or (self.only == "n" and has_eps(c.dfa)):
             return None
         parts = _parts(c, self.RESTRICT)
         if len(parts) < 2:
@@ -401,14 +416,27 @@ class ByLast(_ByLetter):
 class SplitFirst(_Json, CartesianProductStrategy[R, Word]):
     """All words start with the same letter x (and the language is not {x}):  L = {x} · x⁻¹L."""
 
-    def __init__(self, **kw):
+    def __init__(self, letter: str = "", **kw):
+        self.letter = letter  # "" or the only first letter the strategy deals with
         super().__init__(**kw)
+
+    def to_jsonable(self) -> dict:
+        d = super().to_jsonable()
+        d["letter"] = self.letter
+        return d
+
+    @classmethod
+    def from_dict(cls, d: dict):
+        return cls(letter=d.get("letter", ""))
+
+    def __repr__(self) -> str:
+        return f"{type(self).__name__}({self.letter!r})" if self.letter else f"{type(self).__name__}()"
 
     def decomposition_function(self, c: R) -> Optional[Tuple[R, ...]]:
         if c.is_empty() or has_eps(c.dfa) or c.is_atom():
             return None
         first = [x for x in ALPH if restrict_first(c.dfa, x)[0]]
-        if len(first) != 1:
+        if len(first) != 1 or (self.letter and first[0] != self.letter):
             return None
         return (R(word_language(first[0])), R(left_quotient(c.dfa, first[0])))
 
@@ -429,14 +457,27 @@ class SplitFirst(_Json, CartesianProductStrategy[R, Word]):
 class SplitLast(_Json, CartesianProductStrategy[R, Word]):
     """All words end with the same letter x (and the language is not {x}):  L = Lx⁻¹ · {x}."""
 
-    def __init__(self, **kw):
+    def __init__(self, letter: str = "", **kw):
+        self.letter = letter
         super().__init__(**kw)
+
+    def to_jsonable(self) -> dict:
+        d = super().to_jsonable()
+        d["letter"] = self.letter
+        return d
+
+    @classmethod
+    def from_dict(cls, d: dict):
+        return cls(letter=d.get("letter", ""))
+
+    def __repr__(self) -> str:
+        return f"{type(self).__name__}({self.letter!r})" if self.letter else f"{type(self).__name__}()"
 
     def decomposition_function(self, c: R) -> Optional[Tuple[R, ...]]:
         if c.is_empty() or has_eps(c.dfa) or c.is_atom():
             return None
         last = [x for x in ALPH if restrict_last(c.dfa, x)[0]]
-        if len(last) != 1:
+        if len(last) != 1 or (self.letter and last[0] != self.letter):
             return None
         return (R(right_quotient(c.dfa, last[0])), R(word_language(last[0])))
 
@@ -455,13 +496,22 @@ class SplitLast(_Json, CartesianProductStrategy[R, Word]):
 
 
 def r_pack(name: str = "r") -> StrategyPack:
-    """r: all four strategies in one expansion set; rL / rR: only the first-letter / last-letter
-    pair; r2: first-letter strategies, then last-letter strategies (two expansion sets);
-    r2R: the other order."""
+    """r: all four strategies in one expansion set (rRL: last-letter ones listed first); rL / rR:
+    only the first-letter / last-letter pair; r2: first-letter strategies, then last-letter
+    strategies (two expansion sets); r2R: the other order; rx..: restricted variants."""
     first = [ByFirst(), SplitFirst()]
     last = [ByLast(), SplitLast()]
+    if name.startswith("rx"):
+        # rx<o><l>[R] : complete first-letter strategies plus RESTRICTED last-letter strategies:
+        # ByLast only for o in {e, n}, SplitLast only for last letter l in {a, b}; a trailing R lists
+        # the last-letter strategies before the first-letter ones
+        o, l = name[2], name[3]
+        rl = [ByLast(only=o), SplitLast(letter=l)]
+        exp_sets = [rl + first] if name.endswith("R") else [first + rl]
+        return StrategyPack(initial_strats=[], inferral_strats=[], expansion_strats=exp_sets, ver_strats=[AtomStrategy()], name=name)
     exp = {
         "r": [first + last],
+        "rRL": [last + first],
         "rL": [first],
         "rR": [last],
         "r2": [first, last],
